@@ -80,7 +80,11 @@ theorem decode_blocks (m : PMol) (h : WF m) (v : Nat) (hv : v = 0 ∨ v = 2) (or
       rw [List.length_append, hpairs_len]; omega
     have htake : (pairEnc true 0 (flatM m.atoms) ++ (ords ++ (ct ++ rest))).take (3 * F)
         = pairEnc true 0 (flatM m.atoms) := List.take_left' hpairs_len
-    simp only [decodeBonds, if_neg hl, hread, htake, hpairs_dec]
+    have hro := readOrderBytes_eq (v :: u8 (m.atoms.length >>> 4) :: u8 (m.atoms.length <<< 4 ||| ctCount m.atoms >>> 8) ::
+        u8 (ctCount m.atoms) :: (ab ++ (pairEnc true 0 (flatM m.atoms) ++ (ords ++ (ct ++ rest))))) v F
+        (4 + 9 * m.atoms.length + 3 * F)
+    rw [← hlen] at hro
+    simp only [decodeBonds, if_neg hl, hro, hread, htake, hpairs_dec]
     show rebuild [] [] (List.map stripNbrs m.atoms) (flatM m.atoms)
       (if (v == 2) = true then orderDec 0 0 ords else orderDecV0 ords) = _
     rw [hdec]
